@@ -201,8 +201,10 @@ Section WF.
     /\ nodupb (map h_id (all_hdrs st)) = true
     /\ nodupb (map h_height (all_hdrs st)) = true.
   Proof.
-    unfold wf_store, wf_storeb in wf. fold chain T in wf.
-    repeat (apply andb_true_iff in wf as [wf ?]).
+    unfold wf_store, wf_storeb in wf.
+    apply andb_true_iff in wf as [wf0 _]. apply andb_true_iff in wf0 as [wf0 _].
+    unfold wf_core in wf0. fold chain T in wf0.
+    repeat (apply andb_true_iff in wf0 as [wf0 ?]).
     repeat split; try assumption.
     destruct chain; [exact I|]. apply andb_true_iff in H2 as [Ha Hb]. split; [lia | exact Hb].
   Qed.
@@ -765,4 +767,337 @@ Proof.
     destruct (find (fun h => h_id h =? id) (all_hdrs st)) as [h|] eqn:E; [|discriminate].
     cbn. intro E'. injection E' as <-. split; [discriminate|]. intros x [<-|[]].
     apply find_some in E. tauto.
+Qed.
+
+(** * The store changes while the request is served *)
+
+Theorem static_is_instance : forall f st rq, handle_d f (fun _ => st) rq = handle f st rq.
+Proof. intros f st [o a|id a|]; reflexivity. Qed.
+
+Lemma handle_d_fst_snd f e o a :
+  handle_d f e (ROrigin o a) =
+  (status (fst (handle_range_d f e o (wrap64 (o + a)))), snd (handle_range_d f e o (wrap64 (o + a)))).
+Proof. cbn. destruct (handle_range_d f e o (wrap64 (o + a))). reflexivity. Qed.
+
+Lemma handle_range_d_no_crash f e from to :
+  to < two64 -> fst (handle_range_d f e from to) <> Crash.
+Proof.
+  intro Hto. unfold handle_range_d.
+  destruct (N.leb_spec to from) as [Hle|Hlt]; [cbn; discriminate|].
+  destruct (from =? 0); [apply handle_head_no_crash|].
+  rewrite (sub64_le to from) by lia.
+  destruct (N.ltb_spec max_req (to - from)) as [Hbig|Hsmall]; [cbn; discriminate|].
+  rewrite max_req_val in Hsmall.
+  destruct (has_at (e []) (sub64 to 1)).
+  - apply serve_range_no_crash. rewrite alloc_limit_val. lia.
+  - unfold call_head. destruct f; cbn; try discriminate.
+    destruct (head_of (e [KHasAt])) as [hd|]; [|cbn; discriminate].
+    destruct (N.ltb_spec (h_height hd) from); [cbn; discriminate|].
+    rewrite (sub64_le to 1) by lia.
+    destruct (N.leb_spec (to - 1) (h_height hd)); [cbn; discriminate|].
+    apply serve_range_no_crash.
+    rewrite wrap64_small by (rewrite two64_val in *; lia).
+    rewrite alloc_limit_val. lia.
+Qed.
+
+Theorem handle_d_total : forall f e rq, fst (handle_d f e rq) <> Panic.
+Proof.
+  intros f e rq. destruct rq as [o a|id a|]; cbn.
+  - pose proof (handle_range_d_no_crash f e o (wrap64 (o + a)) (wrap64_lt _)) as Hn.
+    destruct (handle_range_d f e o (wrap64 (o + a))) as [r cs]; cbn in *.
+    intro Hp. apply status_panic in Hp. congruence.
+  - destruct f; cbn; try discriminate.
+    destruct (get_hash (e []) id); discriminate.
+  - discriminate.
+Qed.
+
+(** what the handler asks of the store never grows, whatever the store does meanwhile *)
+Theorem origin_bounded_calls_d : forall f e o a, o < two64 -> a < two64 ->
+  let cs := range_calls (snd (handle_d f e (ROrigin o a))) in
+  (length cs <= 1)%nat /\ Forall (range_args_ok o a) cs.
+Proof.
+  intros f e o a Ho Ha. rewrite handle_d_fst_snd. cbn [snd]. unfold handle_range_d.
+  destruct (N.leb_spec (wrap64 (o + a)) o) as [Hle|Hlt]; [cbn; split; [lia | constructor]|].
+  destruct (N.eqb_spec o 0) as [->|Ho0]; [cbn; split; [lia | constructor]|].
+  assert (o + a < two64) as Hno.
+  { destruct (N.lt_ge_cases (o + a) two64) as [H|H]; [exact H|].
+    rewrite wrap64_over in Hlt by lia. lia. }
+  rewrite wrap64_small in * by exact Hno.
+  rewrite (sub64_le (o + a) o) by lia. rewrite (sub64_le (o + a) 1) by lia.
+  destruct (N.ltb_spec max_req (o + a - o)) as [Hbig|Hsm]; [cbn; split; [lia | constructor]|].
+  destruct (has_at (e []) (o + a - 1)).
+  - destruct (serve_range_calls f (e [KHasAt]) o (o + a) [CHasAt (o + a - 1)]) as (rd & n & ->).
+    cbn. split; [lia|]. constructor; [|constructor]. cbn. lia.
+  - destruct (call_head f (e [KHasAt])) as [hd|x|]; [|cbn; split; [lia | constructor]..].
+    destruct (N.ltb_spec (h_height hd) o); [cbn; split; [lia | constructor]|].
+    destruct (N.leb_spec (o + a - 1) (h_height hd)); [cbn; split; [lia | constructor]|].
+    rewrite wrap64_small by lia.
+    destruct (serve_range_calls f (e [KHasAt; KHead]) o (h_height hd + 1) [CHasAt (o + a - 1); CHead]) as (rd & n & ->).
+    cbn. split; [lia|]. constructor; [|constructor]. cbn. rewrite max_req_val in *. lia.
+Qed.
+
+(** ** one GetRange on an arbitrary well-formed store (top anywhere: on the run, above a gap, absent) *)
+
+Section WF2.
+  Variable st : store.
+  Hypothesis wf : wf_store st.
+
+  Lemma wf2_pos h : In h (all_hdrs st) -> 1 <= h_height h.
+  Proof.
+    intro Hin. unfold wf_store, wf_storeb in wf.
+    apply andb_true_iff in wf as [wf0 _]. apply andb_true_iff in wf0 as [_ Hp].
+    rewrite forallb_forall in Hp. specialize (Hp _ Hin). lia.
+  Qed.
+
+  Lemma wf2_link h p : In h (all_hdrs st) -> In p (all_hdrs st) -> h_prev h = h_id p -> h_height h = h_height p + 1.
+  Proof.
+    intros Hh Hp E. unfold wf_store, wf_storeb in wf.
+    apply andb_true_iff in wf as [_ Hl]. unfold links_ok in Hl.
+    rewrite forallb_forall in Hl. specialize (Hl _ Hh). rewrite forallb_forall in Hl. specialize (Hl _ Hp).
+    rewrite E, N.eqb_refl in Hl. cbn in Hl. lia.
+  Qed.
+
+  Lemma wf2_get_height h : In h (all_hdrs st) -> get_height st (h_height h) = Some h.
+  Proof.
+    intro Hin. destruct (wf_parts st wf) as (_ & _ & _ & _ & Hh).
+    unfold get_height. apply (nodupb_find h_height); assumption.
+  Qed.
+
+  (** the walk, from any stored header *)
+  Lemma walk_gen k : forall h r rd, In h (all_hdrs st) -> walk_down st k h = (r, rd) ->
+    (forall x, In x rd -> x < h_height h /\ h_height h <= x + N.of_nat k)
+    /\ (length rd <= k)%nat /\ NoDup rd
+    /\ (forall l, r = Some l ->
+          length l = S k /\ N.of_nat k < h_height h
+          /\ forall j x, nth_error l j = Some x ->
+               In x (all_hdrs st) /\ h_height x + N.of_nat k = h_height h + N.of_nat j).
+  Proof.
+    induction k as [|k IH]; intros h r rd Hh Hw; cbn in Hw.
+    - injection Hw as <- <-. pose proof (wf2_pos h Hh) as Hpos.
+      split; [intros x []|]. split; [cbn; lia|]. split; [constructor|].
+      intros l E. injection E as <-. split; [reflexivity|]. split; [cbn; lia|].
+      intros j x Hj. destruct j as [|[|j]]; cbn in Hj; try discriminate.
+      injection Hj as <-. split; [exact Hh | lia].
+    - pose proof (wf2_pos h Hh) as Hpos.
+      destruct (get_hash st (h_prev h)) as [p|] eqn:Hp.
+      + unfold get_hash in Hp. apply find_some in Hp as [Hpin Hpid]. apply N.eqb_eq in Hpid.
+        pose proof (wf2_link h p Hh Hpin (eq_sym Hpid)) as Hlink.
+        destruct (walk_down st k p) as [r' rd'] eqn:Hw'.
+        destruct (IH p r' rd' Hpin Hw') as (Hin & Hlen & Hnd & Hres).
+        injection Hw as <- <-.
+        split. { intros x [<-|H]; [lia|]. apply Hin in H. lia. }
+        split. { cbn. lia. }
+        split. { constructor; [|exact Hnd]. intro H. apply Hin in H. lia. }
+        intros l E. destruct r' as [l'|]; cbn in E; [|discriminate]. injection E as <-.
+        destruct (Hres l' eq_refl) as (Hl & Hk & Hn).
+        split. { rewrite app_length. cbn. lia. }
+        split. { lia. }
+        intros j x Hj.
+        destruct (Nat.lt_ge_cases j (length l')) as [Hlt|Hge].
+        * rewrite nth_error_app1 in Hj by exact Hlt. destruct (Hn _ _ Hj) as [A B]. split; [exact A | lia].
+        * rewrite nth_error_app2 in Hj by exact Hge.
+          destruct (j - length l')%nat as [|n] eqn:Ej; cbn in Hj; [|destruct n; discriminate].
+          injection Hj as <-. split; [exact Hh | lia].
+      + injection Hw as <- <-. rewrite sub64_le by lia.
+        split. { intros x [<-|[]]. lia. }
+        split. { cbn. lia. }
+        split. { constructor; [intros [] | constructor]. }
+        discriminate.
+  Qed.
+
+  Definition range_result_ok (from to : N) (r : outcome (list hdr)) (rd : list N) : Prop :=
+    (forall x, In x rd -> from <= x /\ x < to)
+    /\ N.of_nat (length rd) <= to - from /\ NoDup rd
+    /\ r <> Crash
+    /\ (forall l, r = Ret l ->
+          N.of_nat (length l) = to - from
+          /\ forall j, (j < length l)%nat ->
+               exists h, nth_error l j = Some h /\ get_height st (from + N.of_nat j) = Some h
+                         /\ h_height h = from + N.of_nat j /\ In h (all_hdrs st)).
+
+  Lemma get_range_gen from to : 1 <= from -> from < to -> to - from <= max_req ->
+    range_result_ok from to (fst (get_range st from to)) (snd (get_range st from to)).
+  Proof.
+    intros H1 Hft Hsm. rewrite max_req_val in Hsm. unfold get_range, range_result_ok.
+    destruct (N.leb_spec to from); [lia|].
+    destruct (get_height st (to - 1)) as [h|] eqn:Hg.
+    2:{ cbn [fst snd].
+        split. { intros x [<-|[]]. lia. }
+        split. { cbn. lia. }
+        split. { constructor; [intros []|constructor]. }
+        split; discriminate. }
+    unfold get_height in Hg. apply find_some in Hg as [Hin Hht]. apply N.eqb_eq in Hht.
+    destruct (N.ltb_spec alloc_limit (to - from)); [rewrite alloc_limit_val in *; lia|].
+    destruct (walk_down st (N.to_nat (to - from - 1)) h) as [r rd] eqn:Hw.
+    destruct (walk_gen _ h r rd Hin Hw) as (Hrd & Hlen & Hnd & Hres).
+    cbn [fst snd].
+    split. { intros x [<-|Hx]; [lia|]. apply Hrd in Hx. lia. }
+    split. { cbn [length]. lia. }
+    split. { constructor; [|exact Hnd]. intro Hx. apply Hrd in Hx. lia. }
+    split. { destruct r; discriminate. }
+    intros l E. destruct r as [l'|]; [|discriminate]. injection E as <-.
+    destruct (Hres l' eq_refl) as (Hl & Hk & Hn).
+    split; [lia|]. intros j Hj.
+    destruct (nth_error l' j) as [x|] eqn:Hx; [|apply nth_error_None in Hx; lia].
+    destruct (Hn j x Hx) as [Hxin Hxh].
+    assert (h_height x = from + N.of_nat j) as E by lia.
+    exists x. rewrite <- E. split; [reflexivity|]. split; [apply wf2_get_height; assumption|]. split; [reflexivity|assumption].
+  Qed.
+
+  Lemma serve_range_gen f pre from to : 1 <= from -> from < to -> to - from <= max_req ->
+    exists r rd n, serve_range f st from to pre = (r, pre ++ [CGetRange from to rd n])
+      /\ range_result_ok from to r rd.
+  Proof.
+    intros H1 Hft Hsm. unfold serve_range, call_get_range. destruct f.
+    - pose proof (get_range_gen from to H1 Hft Hsm) as Hok.
+      destruct (get_range st from to) as [r rd]. cbn [fst snd] in Hok.
+      eexists _, rd, _. split; [reflexivity|].
+      destruct Hok as (A & B & C & D & E).
+      split; [exact A|]. split; [exact B|]. split; [exact C|].
+      split. { destruct r as [l|x|]; [discriminate|destruct x; discriminate|congruence]. }
+      intros l El. destruct r as [l'|x|]; [|destruct x; discriminate|discriminate]. injection El as <-. apply (E l' eq_refl).
+    - eexists _, [], _. cbn. split; [reflexivity|].
+      split; [intros x []|]. split; [apply N.le_0_l|]. split; [constructor|]. split; discriminate.
+    - eexists _, [], _. cbn. split; [reflexivity|].
+      split; [intros x []|]. split; [apply N.le_0_l|]. split; [constructor|]. split; discriminate.
+  Qed.
+End WF2.
+
+(** ** replies and reads against a changing store *)
+
+Definition range_answer_ok_d (e : env) (o a : N) (r : reply) : Prop :=
+  r = NotFound \/ r = Reset \/
+  exists l S, r = Ok l /\ (S = e [KHasAt] \/ S = e [KHasAt; KHead])
+    /\ (1 <= length l)%nat /\ N.of_nat (length l) <= a
+    /\ (forall j, (j < length l)%nat ->
+          exists h, nth_error l j = Some h /\ get_height S (o + N.of_nat j) = Some h
+                    /\ h_height h = o + N.of_nat j /\ In h (all_hdrs S))
+    /\ (N.of_nat (length l) < a ->
+          exists hd, head_of (e [KHasAt]) = Some hd /\ o + N.of_nat (length l) - 1 = h_height hd).
+
+Lemma heights_read_pre pre from to rd n :
+  range_calls pre = [] -> heights_read (pre ++ [CGetRange from to rd n]) = rd.
+Proof.
+  intro Hp. unfold heights_read.
+  assert (range_calls (pre ++ [CGetRange from to rd n]) = [(from, to, rd, n)]) as ->.
+  { induction pre as [|c pre IH]; [reflexivity|]. destruct c; cbn in *; try (apply IH; exact Hp). discriminate. }
+  cbn. apply app_nil_r.
+Qed.
+
+(** one serve_range step, as both theorems need it *)
+Lemma serve_step f S pre o a to' :
+  wf_store S -> 1 <= o -> o < to' -> to' <= o + a -> to' - o <= max_req -> range_calls pre = [] ->
+  reads_ok o a (heights_read (snd (serve_range f S o to' pre)))
+  /\ (status (fst (serve_range f S o to' pre)) = NotFound
+      \/ status (fst (serve_range f S o to' pre)) = Reset
+      \/ exists l, status (fst (serve_range f S o to' pre)) = Ok l
+           /\ N.of_nat (length l) = to' - o
+           /\ forall j, (j < length l)%nat ->
+                exists h, nth_error l j = Some h /\ get_height S (o + N.of_nat j) = Some h
+                          /\ h_height h = o + N.of_nat j /\ In h (all_hdrs S)).
+Proof.
+  intros wf H1 Hlt Hle Hsm Hpre.
+  destruct (serve_range_gen S wf f pre o to' H1 Hlt Hsm) as (r & rd & n & -> & (Hin & Hlen & Hnd & Hnc & Hret)).
+  cbn [fst snd]. rewrite heights_read_pre by exact Hpre. split.
+  - split; [|split].
+    + intros x Hx. apply Hin in Hx. lia.
+    + lia.
+    + exact Hnd.
+  - destruct r as [l|x|]; [|destruct x; cbn; auto|congruence].
+    right. right. exists l. destruct (Hret l eq_refl) as [A B]. auto.
+Qed.
+
+Theorem origin_reply_shape_d : forall f e o a, (forall hist, wf_store (e hist)) ->
+  1 <= o -> o < two64 -> a < two64 ->
+  range_answer_ok_d e o a (fst (handle_d f e (ROrigin o a))).
+Proof.
+  intros f e o a wf Ho1 Ho Ha. unfold range_answer_ok_d.
+  rewrite handle_d_fst_snd. cbn [fst]. unfold handle_range_d.
+  destruct (N.leb_spec (wrap64 (o + a)) o) as [Hle|Hlt]; [cbn; auto|].
+  destruct (N.eqb_spec o 0) as [->|Ho0]; [lia|].
+  assert (o + a < two64) as Hno.
+  { destruct (N.lt_ge_cases (o + a) two64) as [H|H]; [exact H|]. rewrite wrap64_over in Hlt by lia. lia. }
+  rewrite wrap64_small in * by exact Hno.
+  rewrite (sub64_le (o + a) o) by lia. rewrite (sub64_le (o + a) 1) by lia.
+  destruct (N.ltb_spec max_req (o + a - o)) as [Hbig|Hsm]; [cbn; auto|].
+  destruct (has_at (e []) (o + a - 1)).
+  - destruct (serve_step f (e [KHasAt]) [CHasAt (o + a - 1)] o a (o + a) (wf _)
+                ltac:(lia) ltac:(lia) ltac:(lia) ltac:(lia) eq_refl) as [_ [->|[->|(l & -> & Hl & Hn)]]]; auto.
+    right. right. exists l, (e [KHasAt]). split; [reflexivity|]. split; [auto|].
+    split; [lia|]. split; [lia|]. split; [exact Hn|]. lia.
+  - unfold call_head. destruct f; cbn [fault_err]; [|cbn; auto..].
+    destruct (head_of (e [KHasAt])) as [hd|] eqn:Hhd; [|cbn; auto].
+    destruct (N.ltb_spec (h_height hd) o); [cbn; auto|].
+    destruct (N.leb_spec (o + a - 1) (h_height hd)); [cbn; auto|].
+    rewrite wrap64_small by lia.
+    assert (h_height hd + 1 - o <= max_req) as Hsm' by (rewrite max_req_val in *; lia).
+    destruct (serve_step FNone (e [KHasAt; KHead]) [CHasAt (o + a - 1); CHead] o a (h_height hd + 1) (wf _)
+                ltac:(lia) ltac:(lia) ltac:(lia) Hsm' eq_refl)
+      as [_ [->|[->|(l & -> & Hl & Hn)]]]; auto.
+    right. right. exists l, (e [KHasAt; KHead]). split; [reflexivity|]. split; [auto|].
+    split; [lia|]. split; [lia|]. split; [exact Hn|]. intros _. exists hd. split; [reflexivity|]. lia.
+Qed.
+
+Theorem origin_bounded_reads_d : forall f e o a, (forall hist, wf_store (e hist)) ->
+  o < two64 -> a < two64 ->
+  reads_ok o a (heights_read (snd (handle_d f e (ROrigin o a)))).
+Proof.
+  intros f e o a wf Ho Ha.
+  rewrite handle_d_fst_snd. cbn [snd]. unfold handle_range_d.
+  destruct (N.leb_spec (wrap64 (o + a)) o) as [Hle|Hlt]; [apply reads_ok_nil|].
+  destruct (N.eqb_spec o 0) as [->|Ho0]; [apply reads_ok_nil|].
+  assert (o + a < two64) as Hno.
+  { destruct (N.lt_ge_cases (o + a) two64) as [H|H]; [exact H|]. rewrite wrap64_over in Hlt by lia. lia. }
+  rewrite wrap64_small in * by exact Hno.
+  rewrite (sub64_le (o + a) o) by lia. rewrite (sub64_le (o + a) 1) by lia.
+  destruct (N.ltb_spec max_req (o + a - o)) as [Hbig|Hsm]; [apply reads_ok_nil|].
+  destruct (has_at (e []) (o + a - 1)).
+  - apply (serve_step f (e [KHasAt]) [CHasAt (o + a - 1)] o a (o + a) (wf _)
+             ltac:(lia) ltac:(lia) ltac:(lia) ltac:(lia) eq_refl).
+  - destruct (call_head f (e [KHasAt])) as [hd|x|]; [|apply reads_ok_nil..].
+    destruct (N.ltb_spec (h_height hd) o); [apply reads_ok_nil|].
+    destruct (N.leb_spec (o + a - 1) (h_height hd)); [apply reads_ok_nil|].
+    rewrite wrap64_small by lia.
+    assert (h_height hd + 1 - o <= max_req) as Hsm' by (rewrite max_req_val in *; lia).
+    apply (serve_step f (e [KHasAt; KHead]) [CHasAt (o + a - 1); CHead] o a (h_height hd + 1) (wf _)
+             ltac:(lia) ltac:(lia) ltac:(lia) Hsm' eq_refl).
+Qed.
+
+Theorem only_true_data_d : forall f e rq l, fst (handle_d f e rq) = Ok l ->
+  l <> [] /\ exists hist, forall x, In x l -> In x (all_hdrs (e hist)).
+Proof.
+  intros f e rq l. destruct rq as [o a|id a|]; [| |discriminate].
+  - rewrite handle_d_fst_snd. cbn [fst]. intro Hs.
+    assert (fst (handle_range_d f e o (wrap64 (o + a))) = Ret l) as Hr.
+    { destruct (fst (handle_range_d f e o (wrap64 (o + a)))) as [l'|x|]; cbn in Hs; [congruence|destruct x; discriminate|discriminate]. }
+    clear Hs. revert Hr. unfold handle_range_d.
+    destruct (wrap64 (o + a) <=? o); [discriminate|].
+    destruct (o =? 0).
+    { intro Hr. destruct (only_true_data f (e []) (ROrigin 0 1) l) as [A B].
+      - cbn. unfold handle_range. cbn. unfold handle_head in *. cbn in Hr.
+        destruct (call_head f (e [])); cbn in *; congruence.
+      - split; [exact A|]. exists []. exact B. }
+    destruct (max_req <? sub64 (wrap64 (o + a)) o); [discriminate|].
+    assert (forall S from to pre, fst (serve_range f S from to pre) = Ret l ->
+              l <> [] /\ forall x, In x l -> In x (all_hdrs S)) as Hserve.
+    { intros S from to pre E. destruct (serve_range f S from to pre) as [r cs] eqn:Hsr. cbn in E. subst r.
+      split; [|eapply serve_range_in; eauto].
+      unfold serve_range, call_get_range in Hsr. destruct f; [|cbn in Hsr; discriminate..].
+      destruct (get_range S from to) as [r rd] eqn:Hg. destruct r as [l'|x|]; [|destruct x; discriminate|discriminate].
+      injection Hsr as <- _. unfold get_range in Hg.
+      destruct (to <=? from); [discriminate|]. destruct (get_height S (to - 1)); [|discriminate].
+      destruct (alloc_limit <? to - from); [discriminate|].
+      destruct (N.to_nat (to - from - 1)) as [|k]; cbn in Hg.
+      - injection Hg as <- _. discriminate.
+      - destruct (get_hash S (h_prev h)); [|discriminate].
+        destruct (walk_down S k h0) as [[l''|] rd']; cbn in Hg; [|discriminate].
+        injection Hg as <- _. destruct l''; discriminate. }
+    destruct (has_at (e []) (sub64 (wrap64 (o + a)) 1)).
+    { intro E. destruct (Hserve _ _ _ _ E) as [A B]. split; [exact A|]. eexists. exact B. }
+    destruct (call_head f (e [KHasAt])) as [hd|x|]; [|discriminate..].
+    destruct (h_height hd <? o); [discriminate|].
+    destruct (sub64 (wrap64 (o + a)) 1 <=? h_height hd); [discriminate|].
+    intro E. destruct (Hserve _ _ _ _ E) as [A B]. split; [exact A|]. eexists. exact B.
+  - intro E. destruct (only_true_data f (e []) (RHash id a) l E) as [A B].
+    split; [exact A|]. exists []. exact B.
 Qed.
